@@ -12,7 +12,8 @@ from ..msref.transport import Session
 PROP = "C08"
 MOD = __name__
 
-RULE = ("every public client operation x Hypothesis argument text biased to double quotes, backslashes, CR, LF, NUL, braces, "
+RULE = ("every public client operation x (a sweep of script sizes around 256 ... 65536 bytes so that the written command's total length hits every "
+        "typical block size exactly) + Hypothesis argument text biased to double quotes, backslashes, CR, LF, NUL, braces, "
         "{n}/{n+} look-alikes, multi-byte characters, the empty string and long values; sizes over non-negative integers; server "
         "with and without VERSION (native and emulated rename); oracle: the bytes handed to sendall during the call, parsed by a "
         "strict RFC 5804 command parser, are exactly one command (a known sequence of single commands for the emulated rename) of "
@@ -156,14 +157,49 @@ def worker(arg):
     return col
 
 
+BOUNDARIES = (256, 512, 1024, 1460, 2048, 4096, 8192, 16384, 32768, 65536)
+
+
+def length_cases():
+    """Script sizes that put the total length of the written command on, just
+    below and just above typical block sizes (the command's fixed part is
+    between about 20 and 70 bytes, so a window of 80 sizes below each
+    boundary contains the exact hit for every operation and name used)."""
+    for b in BOUNDARIES:
+        for n in range(b - 80, b + 3):
+            for op, name in (("putscript", "s"), ("putscript", "big_script"), ("checkscript", None)):
+                yield (op, name, n)
+
+
+def length_worker(chunk):
+    col = core.Collector()
+    for op, name, n in chunk:
+        body = ("#" + "x" * (n - 3) + "\r\n") if n >= 3 else "#" * n
+        args = (name, body) if name is not None else (body,)
+        fails = check_call(op, args, True)
+        col.case(key=repr((op, name, n)), nontrivial=True, classes=["op:" + op, "length-sweep"],
+                 sample={"op": op, "name": name, "script_bytes": n} if n in BOUNDARIES and name == "s" else None)
+        for b, d in fails:
+            d = dict(d)
+            d["args"] = [a if len(a) < 80 else "%s... (%d characters)" % (a[:40], len(a)) for a in d["args"]]
+            d["written"] = d["written"][:120]
+            col.fail(b + "|length-sweep", {"op": op, "name": name, "n": n, "sweep": True}, d, size=n)
+    return col
+
+
 def replay(case):
+    if case.get("sweep"):
+        col = length_worker([(case["op"], case["name"], case["n"])])
+        return [(b, f["detail"]) for b, f in col.fails.items()]
     return check_call(case["op"], tuple(case["args"]), case["version"])
 
 
 def main(tier, seed, t0):
     quick = tier == "quick"
     col = core.run_shards(worker, [(seed * 1000 + 1800 + k, 1000 if quick else 10000) for k in range(16)])
-    need = ["op:" + o for o in OPS] + ["version:True", "version:False", "arg:quote-or-backslash", "arg:cr-lf-nul",
+    lc = list(length_cases())
+    col.merge(core.run_shards(length_worker, [lc[i::16] for i in range(16)]))
+    need = ["length-sweep"] + ["op:" + o for o in OPS] + ["version:True", "version:False", "arg:quote-or-backslash", "arg:cr-lf-nul",
                                         "arg:literal-lookalike", "arg:empty", "arg:non-ascii"]
     missing = [c for c in need if not col.classes.get(c)]
     if missing:
